@@ -117,7 +117,9 @@ func (ex *Exec) scanMods(fn *ssa.Function, blocks map[*ssa.BasicBlock]bool, ms *
 				ms.alloc = true
 				ex.modsOfCall(&x.Call, ms, depth, blocks)
 			case *ssa.RunDefers:
-				ms.all = true
+				if fnHasDefers(fn) {
+					ms.all = true
+				}
 			}
 		}
 	}
@@ -550,6 +552,29 @@ func (fr *Frame) enterLoop(head *ssa.BasicBlock, ord int, in *State) *State {
 			ex.lvalueTargets(env, m, declared.allowed, declared.elemBases, declared.whole)
 		}
 		lc.frame = declared
+		// every declared heap is havoced at its targets, whether or not the
+		// scan of the body found a write to it
+		for n := range declared.allowed {
+			if _, ok := ms.heaps[n]; !ok {
+				if srt, ok := ex.cx.heapSorts[n]; ok {
+					ms.heaps[n] = srt
+				}
+			}
+		}
+		for n := range declared.elemBases {
+			if _, ok := ms.heaps[n]; !ok {
+				if srt, ok := ex.cx.heapSorts[n]; ok {
+					ms.heaps[n] = srt
+				}
+			}
+		}
+		for n := range declared.whole {
+			if _, ok := ms.heaps[n]; !ok {
+				if srt, ok := ex.cx.heapSorts[n]; ok {
+					ms.heaps[n] = srt
+				}
+			}
+		}
 	}
 	for _, n := range sortedKeys(ms.heaps) {
 		s := ms.heaps[n]
@@ -569,7 +594,7 @@ func (fr *Frame) enterLoop(head *ssa.BasicBlock, ord int, in *State) *State {
 				nh := ex.freshHeap("lf_", n, s)
 				cond := ex.refOldStrict(Term{"r!l", SRef}, apIn)
 				for _, b := range declared.elemBases[n] {
-					cond = and(cond, not(and(app(SBool, "(_ is elem)", Term{"r!l", SRef}), eq(app(SRef, "ebase", Term{"r!l", SRef}), b))))
+					cond = and(cond, not(elemMatch(Term{"r!l", SRef}, b)))
 				}
 				ex.cx.assume(Term{fmt.Sprintf("(forall ((r!l Ref)) (! (=> %s (= (select %s r!l) (select %s r!l))) :pattern ((select %s r!l))))",
 					cond.S, nh.S, h.S, nh.S), SBool})
@@ -714,7 +739,7 @@ func (fr *Frame) closeLoop(head *ssa.BasicBlock, ord int, st *State, from *ssa.B
 				cond = and(cond, not(eq(r, a)))
 			}
 			for _, b := range lc.frame.elemBases[n] {
-				cond = and(cond, not(and(app(SBool, "(_ is elem)", r), eq(app(SRef, "ebase", r), b))))
+				cond = and(cond, not(elemMatch(r, b)))
 			}
 			goal := Term{fmt.Sprintf("(forall ((r!f Ref)) (=> %s (= (select %s r!f) (select %s r!f))))", cond.S, ft.S, ht.S), SBool}
 			o := ex.cx.oblige("loop-frame", fmt.Sprintf("loop%d:%s", ord, n), st.reach, goal, ex.pos(pos), nil)
@@ -733,4 +758,15 @@ func (fr *Frame) closeLoop(head *ssa.BasicBlock, ord int, st *State, from *ssa.B
 		}
 		ex.oblige("decreases", fmt.Sprintf("loop%d", ord), st, g, pos, dec.Props)
 	}
+}
+
+func fnHasDefers(fn *ssa.Function) bool {
+	for _, b := range fn.Blocks {
+		for _, ins := range b.Instrs {
+			if _, ok := ins.(*ssa.Defer); ok {
+				return true
+			}
+		}
+	}
+	return false
 }
